@@ -306,12 +306,15 @@ pub fn make_knobs(profile: Profile, rng: &mut Rng, thorough: bool) -> Knobs {
         Profile::Rewards => {
             k.extreme_rewards = rng.chance(1, 3);
             if k.extreme_rewards {
-                k.liq_bits = *rng.pick(&[3u32, 5, 8]);
+                k.liq_bits = *rng.pick(&[1u32, 2, 3, 5, 8]);
                 k.swap_bits = 12;
             }
             k.clock_stall_pct = pct(rng, 5, 2, 10);
             k.clock_jump_pct = pct(rng, 6, 2, 10);
             k.clock_back_pct = pct(rng, 4, 1, 6);
+            if k.extreme_rewards && k.clock_jump_pct > 0 {
+                k.clock_jump_pct = 25;
+            }
         }
         Profile::T22 => {
             k.v2_only = true;
@@ -891,8 +894,12 @@ impl Gen {
             self.stats.hit("clock_stall");
         }
         if k.clock_jump_pct > 0 && self.rng.chance(k.clock_jump_pct, 100) {
-            let sel = if self.knobs.extreme_rewards && self.rng.chance(1, 2) { 4 + self.rng.below(2) } else { self.rng.below(8) };
+            // extreme-reward worlds: years (interval products beyond 128 bits: the documented carve-out) and hours (products
+            // just below 2^128 at the highest rates: the accumulator itself climbs to the top and wraps)
+            let sel = if self.knobs.extreme_rewards && self.rng.chance(1, 2) { 4 + self.rng.below(3) } else { self.rng.below(8) };
+            let sel = if sel == 6 && self.knobs.extreme_rewards { 8 } else { sel };
             let j: i64 = match sel {
+                8 => (1i64 << (13 + self.rng.below(5))) + self.rng.below(64) as i64,
                 0 => 1,
                 1 => 59 + self.rng.below(3) as i64,
                 2 => 3599 + self.rng.below(3) as i64,
